@@ -5,10 +5,10 @@ CONSTANTS
   TypesC <- TypesAll
   Depth = "edge"
   FieldSet = "edge"
-  Entries <- EntriesAll
+  Entries <- EntriesUntrusted
   MaxOps = 2
   Heavy <- HeavyAll
   HeavyAfter <- NoOps
-  Muts <- MutsAll
+  Muts <- MutsTwo
 INVARIANTS TypeOK NoPanic WellOrdered Emit
 CHECK_DEADLOCK FALSE
